@@ -548,7 +548,7 @@ def key_injective(ctx):
 
 
 @rule("C03.DELETE-STATE-SITES", ["C03", "C12"], """the recorded state of a target is deleted only: by the incremental runner before the script, by the state reader when
-      the file does not decode, and by `main` under --clean""", "K4", floor=3)
+      the file does not decode, and by `main` under --clean""", "K4", floor=2)
 def delete_state_sites(ctx):
     r = ctx.r
     f = ctx.f
